@@ -666,15 +666,19 @@ func (c *Ctx) lengthGuard(rp map[*ssa.Function]bool, rule string) {
 		okAll := true
 		flow.Instrs(h, func(in ssa.Instruction) {
 			ret, ok := in.(*ssa.Return)
-			if !ok || len(ret.Results) == 0 {
+			if !ok || len(ret.Results) == 0 || ret.Block() == h.Recover {
 				return
 			}
 			e := ret.Results[len(ret.Results)-1]
 			isNil := false
-			for _, s := range flow.SpillSources(e) {
+			srcsE := flow.SpillSources(e)
+			for _, s := range srcsE {
 				if flow.IsNilConst(s) {
 					isNil = true
 				}
+			}
+			if len(srcsE) == 1 {
+				e = srcsE[0] // a named result kept in memory: the one value that reaches this return
 			}
 			if !isNil {
 				// error may be a non-constant that is nil at run time (e.g. `return cmd, stream, err`): treat conservatively
@@ -694,7 +698,11 @@ func (c *Ctx) lengthGuard(rp map[*ssa.Function]bool, rule string) {
 						}
 					}
 					// non-constant error result: only fine if it is on an error edge (cannot tell) — require guard too
-					if g, _ := guardedAt(ret); !g && !onErrEdge(ret, e) {
+					if g, where := guardedAt(ret); g {
+						// may be nil at run time, and lies behind the guard: counts as an established success return
+						n++
+						at = where
+					} else if !onErrEdge(ret, e) {
 						okAll = false
 					}
 				}
@@ -702,6 +710,30 @@ func (c *Ctx) lengthGuard(rp map[*ssa.Function]bool, rule string) {
 			}
 			n++
 			g, where := guardedAt(ret)
+			if !g && estDepth < 2 {
+				// … or the guard sits in a step this function runs first: the return lies on the nil-error edge of a
+				// call whose own nil-error returns are behind the guard
+				for _, cj := range flow.CallInstrs(h) {
+					hc, isCall := cj.(*ssa.Call)
+					if !isCall || g {
+						continue
+					}
+					h2 := flow.StaticCallee(hc)
+					if h2 == nil || h2.Blocks == nil || !c.P.IsLibrary(h2) || h2 == h {
+						continue
+					}
+					eb := errorEdgeBlocks(hc)
+					if len(eb) == 0 || !flow.Dominates(hc, ret) || eb[ret.Block()] || pathFromErrEdge(h, hc, ret) != nil {
+						continue
+					}
+					estDepth++
+					ok2, w2 := establishes(h2)
+					estDepth--
+					if ok2 {
+						g, where = true, w2
+					}
+				}
+			}
 			if !g {
 				okAll = false
 			} else {
@@ -762,11 +794,19 @@ func (c *Ctx) lengthGuard(rp map[*ssa.Function]bool, rule string) {
 
 // onErrEdge: the return sits on an edge where its error operand was tested non-nil.
 func onErrEdge(ret *ssa.Return, e ssa.Value) bool {
+	one := func(v ssa.Value) ssa.Value {
+		if s := flow.SpillSources(v); len(s) == 1 {
+			return s[0]
+		}
+		return v
+	}
+	e = one(e)
 	for _, g := range flow.Guards(ret) {
 		rl, ok := condRel(g.If.Cond, g.Taken)
 		if !ok {
 			continue
 		}
+		rl.a, rl.b = one(rl.a), one(rl.b)
 		if rl.op == token.NEQ && ((sameVal(rl.a, e) && flow.IsNilConst(rl.b)) || (sameVal(rl.b, e) && flow.IsNilConst(rl.a))) {
 			return true
 		}
@@ -804,6 +844,17 @@ func (c *Ctx) c05Errors(headerSites, bodySites []readSite) {
 					if src[e] {
 						src[ph] = true
 						changed = true
+					}
+				}
+			}
+			// the memory counterpart of a phi: a read of a local cell the error was stored into
+			if ld, ok := in.(*ssa.UnOp); ok && ld.Op == token.MUL && !src[ld] {
+				if _, isAl := ld.X.(*ssa.Alloc); isAl {
+					for _, sv := range flow.SpillSources(ld) {
+						if sv != ssa.Value(ld) && src[sv] {
+							src[ld] = true
+							changed = true
+						}
 					}
 				}
 			}
